@@ -14,6 +14,9 @@ def scenarios(tier):
     for rel in (0, 1, 2):
         for acq in (0, 1, 2):
             out.append(scen('own_%s_vs_%s' % (REL[rel].replace('+', ''), ACQ[acq]), 2, OWNER0=1, T1_REL=rel, T2_ACQ=acq, T2_REL=(rel + 1) % 3))
+    # the owner hands over to a request registered before the threads started (the new owner runs and releases on the releasing thread) while another thread requests
+    out.append(scen('own_preq_vs_wait', 2, OWNER0=1, PREQ=0, T1_REL=1, T2_ACQ=1, T2_REL=0))
+    out.append(scen('own_preq_vs_try', 2, OWNER0=1, PREQ=1, T1_REL=0, T2_ACQ=0, T2_REL=1))
     # two contenders on a free mutex
     for a1 in (0, 1, 2):
         for a2 in (a1, 1, 2) if a1 == 0 else (1, 2):
